@@ -44,6 +44,13 @@ NOTES = """Interpretation choices (read generously, see BUILDING.md rule 1):
   decoding with wrongly decoded decoys, three rootfiles, declared order different from every other order. Each call
   must (b) return byte for byte what it returns on a freshly opened reader and (a) present the tokens of the parts it
   selects in the selected order. The content of the table of contents is only compared with the fresh reader's.
+* the XML SPELLING of the declarations never matters: attribute order (r:id before id / name; Target, Type, Id; linear,
+  idref; media-type, href, id), another prefix bound to the relationships namespace, single quotes, an extra attribute
+  with local name "id" from a namespace made ignorable through Markup Compatibility (EPUB: the itemref's own optional
+  id attribute), start/end tags instead of empty-element tags, line breaks and comments between entries, the XML
+  declaration present / absent / behind a byte order mark - for workbook.xml, presentation.xml, their relationship
+  parts, /_rels/.rels, container.xml and the package documents. Relationship parts carry no foreign attributes (OPC
+  forbids Markup Compatibility there).
 * references may contain "./" (and for EPUB "../") segments: resolved as RFC 3986 5.2.4 says, relative and absolute.
 * OPC relationship targets are tried relative to the source part ('worksheets/sheet1.xml') and absolute
   ('/xl/worksheets/sheet1.xml'); '..' segments are generated only for EPUB. Speaker notes, slide masters and
@@ -53,11 +60,11 @@ NOTES = """Interpretation choices (read generously, see BUILDING.md rule 1):
 EVIDENCE = dict(
     level="model_checking",
     rule="cases = every package PartsOrderMC.tla builds from K parts (K=3 quick, 4 thorough) x three independent permutations "
-         "(declared order, relationship/manifest listing order, archive order; file-name order = part number) x 69 layout profiles "
+         "(declared order, relationship/manifest listing order, archive order; file-name order = part number) x 81 layout profiles "
          "(XLSX, PPTX, EPUB 2/3; nested / renamed / ../ paths; absolute targets; %20, '+', %2B; decoys; optional parts; one declared part "
          "absent from the archive, with other parts or decoys under the conventional sheet<k>/slide<k> names; member names with space, '+', "
          "'%20', lone '%', e-acute, parentheses, '&' in their encoded / raw spellings with decoys named like the doubly decoded, undecoded "
-         "or form-decoded reading; './' segments; EPUB containers with 1-3 rootfiles, OOXML relationship order) plus -simulate "
+         "or form-decoded reading; './' segments; EPUB containers with 1-3 rootfiles, OOXML relationship order; four XML spellings of the declarations) plus -simulate "
          "packages over the full option product; TLC proves DeclaredOrder for the declared/path reader and refutes the file-name, archive, "
          "query-decoding, twice-decoding, last-rootfile and conventional-name-fallback readers. Each package is rendered by an independent writer and opened through tabula.Open (PageCount, Text, "
          "ToMarkdown, Document) and the format reader; random packages of up to 10 parts are validated by PartsOrderTrace.tla. "
@@ -137,7 +144,7 @@ def _name_features(results):
                 tot[key] = tot.get(key, 0) + 1
                 if not r["ok"]:
                     bad[key] = bad.get(key, 0) + 1
-    prio = {"paths": 0, "tgt": 1, "opf": 2, "enc": 3}
+    prio = {"paths": 0, "tgt": 1, "opf": 2, "enc": 3, "foreign-id-last": 4, "foreign-id-first": 5, "rev": 6, "prefix": 6, "quotes": 7, "oc": 8, "gaps": 9, "decl": 10}
     for r in results:
         sig = r.get("sig") or ""
         feats = _features(sig)
@@ -226,6 +233,8 @@ def run(ctx):
     ng = len(gen["cases"])
     miss = [c for c in cases if c["prof"]["missing"] > 0]
     chains = [c for c in cases if c["prof"]["chain"] != "one"]
+    spelled = [c for c in cases if c["prof"]["xml"]["rev"] or c["prof"]["xml"]["foreign"] or c["prof"]["xml"]["decl"] != "std"]
+    chains = [spelled[i * len(spelled) // 7] for i in range(7)] + chains
     picks = [chains[0], chains[len(chains) // 3], chains[2 * len(chains) // 3], chains[-1], miss[0], miss[len(miss) // 2], miss[-1], cases[0], cases[ng // 5], cases[2 * ng // 5], cases[3 * ng // 5], cases[4 * ng // 5], cases[ng - 1], cases[-1], cases[-2], cases[-3]]
     _selftest(ctx, picks)
     for c in (cases[ng // 3], cases[-1]):
